@@ -1,1 +1,614 @@
-From MPD Require Import Bytes.
+(* TypedProofs.v — lemmas for C12 (totality) and C16 (faithful decoding) about TypedModel. *)
+From Coq Require Import ZArith ZifyBool ZifyN ZifyNat Permutation.
+From MPD Require Import Bytes Tables BuilderModel FrameModel FrameProofs TagModel TagProofs TypedModel.
+Open Scope N_scope.
+
+(* ====================================================================================== *)
+(* A. numerals: render_dec / parse_uint / span_digits                                      *)
+(* ====================================================================================== *)
+
+Lemma dec_acc_app a x y : dec_acc a (x ++ y) = dec_acc (dec_acc a x) y.
+Proof. revert a; induction x as [|d x IH]; intros a; simpl; auto. Qed.
+
+Lemma dec_acc_shift a x : dec_acc a x = a * 10 ^ N.of_nat (length x) + dec_acc 0 x.
+Proof.
+  revert a; induction x as [|d x IH]; intros a.
+  - simpl. change (10 ^ N.of_nat 0) with 1. lia.
+  - cbn [dec_acc length]. rewrite (IH (a * 10 + digit_val d)), (IH (0 * 10 + digit_val d)).
+    rewrite Nat2N.inj_succ, N.pow_succ_r'. lia.
+Qed.
+
+Lemma dec_value_app x y : dec_value (x ++ y) = dec_value x * 10 ^ N.of_nat (length y) + dec_value y.
+Proof. unfold dec_value. rewrite dec_acc_app, dec_acc_shift. reflexivity. Qed.
+
+Lemma digit_of_mod n : is_digit (48 + n mod 10) = true /\ digit_val (48 + n mod 10) = n mod 10.
+Proof.
+  pose proof (N.mod_lt n 10 ltac:(lia)). unfold is_digit, in_range, digit_val. split; lia.
+Qed.
+
+Lemma rda_unfold f n acc :
+  render_dec_aux (S f) n acc =
+  if n / 10 =? 0 then (48 + n mod 10) :: acc else render_dec_aux f (n / 10) ((48 + n mod 10) :: acc).
+Proof. reflexivity. Qed.
+
+(* the characterisation of render_dec_aux: it prepends the digits of n *)
+Lemma render_dec_aux_spec fuel : forall n acc, n < 2 ^ N.of_nat (S fuel) ->
+  exists ds, render_dec_aux (S fuel) n acc = ds ++ acc /\ ds <> [] /\ forallb is_digit ds = true /\ dec_value ds = n.
+Proof.
+  induction fuel as [|f IH]; intros n acc H.
+  - change (2 ^ N.of_nat 1) with 2 in H.
+    rewrite rda_unfold. assert (E : n / 10 = 0) by (apply N.div_small; lia). rewrite E.
+    change (0 =? 0) with true. cbn iota.
+    exists [48 + n mod 10]. destruct (digit_of_mod n) as [D1 D2].
+    split; [reflexivity|]. split; [discriminate|]. split; [simpl; rewrite D1; reflexivity|].
+    unfold dec_value. cbn [dec_acc]. rewrite D2. rewrite N.mod_small by lia. lia.
+  - rewrite rda_unfold. destruct (digit_of_mod n) as [D1 D2].
+    destruct (n / 10 =? 0) eqn:E.
+    + exists [48 + n mod 10]. split; [reflexivity|]. split; [discriminate|]. split; [simpl; rewrite D1; reflexivity|].
+      unfold dec_value. cbn [dec_acc]. rewrite D2. apply N.eqb_eq in E.
+      pose proof (N.div_mod n 10 ltac:(lia)). lia.
+    + assert (Hn : n / 10 < 2 ^ N.of_nat (S f)).
+      { rewrite Nat2N.inj_succ, N.pow_succ_r' in H.
+        assert (n / 10 <= n / 2).
+        { pose proof (N.div_mod n 10 ltac:(lia)). pose proof (N.div_mod n 2 ltac:(lia)).
+          pose proof (N.mod_lt n 10 ltac:(lia)). pose proof (N.mod_lt n 2 ltac:(lia)). lia. }
+        assert (n / 2 < 2 ^ N.of_nat (S f)) by (apply N.div_lt_upper_bound; lia). lia. }
+      destruct (IH (n / 10) ((48 + n mod 10) :: acc) Hn) as (ds & H1 & H2 & H3 & H4).
+      exists (ds ++ [48 + n mod 10]). split.
+      * rewrite H1, <- app_assoc. reflexivity.
+      * split; [destruct ds; discriminate|]. split.
+        -- rewrite forallb_app, H3. simpl. rewrite D1. reflexivity.
+        -- rewrite dec_value_app, H4. unfold dec_value. cbn [dec_acc length]. rewrite D2.
+           change (10 ^ N.of_nat 1) with 10. pose proof (N.div_mod n 10 ltac:(lia)). lia.
+Qed.
+
+Lemma render_dec_spec n :
+  render_dec n <> [] /\ forallb is_digit (render_dec n) = true /\ dec_value (render_dec n) = n.
+Proof.
+  unfold render_dec.
+  assert (H : n < 2 ^ N.of_nat (S (N.to_nat (N.log2 n)))).
+  { rewrite Nat2N.inj_succ, N2Nat.id. destruct (N.eq_dec n 0) as [->|Hn]; [reflexivity|].
+    apply N.log2_spec. lia. }
+  destruct (render_dec_aux_spec _ n [] H) as (ds & H1 & H2 & H3 & H4).
+  rewrite H1, app_nil_r. auto.
+Qed.
+
+Lemma render_dec_head n : exists d r, render_dec n = d :: r /\ is_digit d = true.
+Proof.
+  destruct (render_dec_spec n) as (H1 & H2 & _). destruct (render_dec n) as [|d r]; [congruence|].
+  exists d, r. simpl in H2. apply andb_true_iff in H2. tauto.
+Qed.
+
+Lemma parse_digits_render bits n : parse_digits bits (render_dec n) = if n <? 2 ^ bits then Some n else None.
+Proof.
+  destruct (render_dec_spec n) as (H1 & H2 & H3). unfold parse_digits.
+  destruct (render_dec n) as [|d r] eqn:E; [congruence|]. rewrite H2, H3. reflexivity.
+Qed.
+
+(* Rust str::parse::<uN> accepts the canonical numeral of n exactly when n fits the width *)
+Lemma parse_uint_render bits n : parse_uint bits (render_dec n) = if n <? 2 ^ bits then Some n else None.
+Proof.
+  rewrite <- parse_digits_render. unfold parse_uint.
+  destruct (render_dec_head n) as (d & r & E & D). rewrite E.
+  assert (d <> 43) by (unfold is_digit, in_range in D; lia).
+  destruct d as [|p]; [reflexivity|].
+  repeat (destruct p as [p|p|]; try reflexivity); congruence.
+Qed.
+
+Lemma parse_uint_render_iff bits n : parse_uint bits (render_dec n) = Some n <-> n < 2 ^ bits.
+Proof.
+  rewrite parse_uint_render. destruct (n <? 2 ^ bits) eqn:E; split; intro H; try lia; try discriminate; reflexivity.
+Qed.
+
+(* whatever parse_uint returns fits the width: overflow can only be an error *)
+Lemma parse_uint_sound bits s n : parse_uint bits s = Some n -> n < 2 ^ bits.
+Proof.
+  assert (P : forall t, parse_digits bits t = Some n -> n < 2 ^ bits).
+  { intros t. unfold parse_digits. destruct t; [discriminate|]. destruct (forallb is_digit (n0 :: t)); [|discriminate].
+    destruct (dec_value (n0 :: t) <? 2 ^ bits) eqn:E; [|discriminate]. intros H; inversion H; subst. lia. }
+  unfold parse_uint. destruct s as [|c r]; [apply P|].
+  destruct (N.eq_dec c 43) as [->|Hc]; [apply P|].
+  destruct c as [|p]; [apply P|].
+  repeat (destruct p as [p|p|]; try apply P).
+Qed.
+
+Lemma span_digits_app ds r :
+  forallb is_digit ds = true -> match r with [] => True | c :: _ => is_digit c = false end ->
+  span_digits (ds ++ r) = (ds, r).
+Proof.
+  intros H Hr. induction ds as [|d ds IH]; simpl in *.
+  - destruct r as [|c r']; [reflexivity|]. simpl. rewrite Hr. reflexivity.
+  - apply andb_true_iff in H as [H1 H2]. rewrite H1, (IH H2). reflexivity.
+Qed.
+
+(* ====================================================================================== *)
+(* B. programs over a frame: order-independence of distinct keys                           *)
+(* ====================================================================================== *)
+
+Lemma s_get_find l k : fst (s_get l k) = s_find l k.
+Proof.
+  induction l as [|[k' v] r IH]; simpl; [reflexivity|].
+  destruct (beq k' k); [reflexivity|]. destruct (s_get r k) as [o r']. simpl in *. exact IH.
+Qed.
+
+Lemma s_get_other l k k' : k' <> k -> s_find (snd (s_get l k)) k' = s_find l k'.
+Proof.
+  intros Hk. induction l as [|[k0 v] r IH]; simpl; [reflexivity|].
+  destruct (beq k0 k) eqn:E.
+  - apply beq_eq in E. subst. simpl. destruct (beq k k') eqn:E2; [apply beq_eq in E2; congruence|reflexivity].
+  - destruct (s_get r k) as [o r'] eqn:G. simpl in *. rewrite IH. reflexivity.
+Qed.
+
+(* [uses p ks]: along every path p asks for keys in the order of ks, each at most once
+   (it may stop early and may skip keys) *)
+Inductive uses {A} : prog A -> list bytes -> Prop :=
+  | u_ret r ks : uses (Ret r) ks
+  | u_get k c ks : (forall o, uses (c o) ks) -> uses (Get k c) (k :: ks)
+  | u_skip p k ks : uses p ks -> uses p (k :: ks).
+
+Lemma uses_weaken {A} (p : prog A) ks0 ks : uses p ks -> uses p (ks0 ++ ks).
+Proof. intros H. induction ks0 as [|k ks0 IH]; simpl; [exact H|]. apply u_skip. exact IH. Qed.
+
+Lemma uses_nil_r {A} (p : prog A) ks ks' : uses p ks -> uses p (ks ++ ks').
+Proof.
+  intros H. induction H; simpl.
+  - apply u_ret.
+  - apply u_get. auto.
+  - apply u_skip. auto.
+Qed.
+
+Lemma uses_bind {A B} (p : prog A) (f : A -> prog B) ks1 ks2 :
+  uses p ks1 -> (forall a, uses (f a) ks2) -> uses (bind p f) (ks1 ++ ks2).
+Proof.
+  intros H Hf. induction H as [r ks|k c ks H IH|p k ks H IH]; simpl.
+  - destruct r as [a|e|]; [apply uses_weaken; apply Hf| apply u_ret | apply u_ret].
+  - apply u_get. intros o. apply IH.
+  - apply u_skip. exact IH.
+Qed.
+
+(* Frame::get on distinct keys = lookup in the original frame *)
+Theorem run_lookup {A} (p : prog A) ks : uses p ks -> NoDup ks ->
+  forall fs fs', (forall k, In k ks -> s_find fs' k = s_find fs k) -> fst (run p fs') = runL p (s_find fs).
+Proof.
+  intros H. induction H as [r ks|k c ks H IH|p k ks H IH]; intros ND fs fs' Hf.
+  - reflexivity.
+  - cbn [run runL]. pose proof (s_get_find fs' k) as G1. pose proof (fun k' => s_get_other fs' k k') as G2.
+    destruct (s_get fs' k) as [o fs'']. cbn [fst snd] in *. subst o.
+    rewrite (Hf k (or_introl eq_refl)). inversion ND; subst. apply IH; [assumption|].
+    intros k' Hk'. rewrite G2; [apply Hf; right; exact Hk'|]. intros ->. contradiction.
+  - inversion ND; subst. apply IH; [assumption|]. intros k' Hk'. apply Hf. right. exact Hk'.
+Qed.
+
+Corollary exec_lookup {A} (p : prog A) ks fs : uses p ks -> NoDup ks -> exec p fs = runL p (s_find fs).
+Proof. intros H ND. unfold exec. apply (run_lookup p ks H ND fs fs). reflexivity. Qed.
+
+Lemma runL_bind {A B} (p : prog A) (f : A -> prog B) look :
+  runL (bind p f) look = tbind (runL p look) (fun a => runL (f a) look).
+Proof.
+  induction p as [r|k c IH]; simpl.
+  - destruct r; reflexivity.
+  - apply IH.
+Qed.
+
+Fixpoint nodupb (l : list bytes) : bool :=
+  match l with
+  | [] => true
+  | x :: r => negb (existsb (beq x) r) && nodupb r
+  end.
+
+Lemma nodupb_sound l : nodupb l = true -> NoDup l.
+Proof.
+  induction l as [|x r IH]; simpl; intros H; [constructor|].
+  apply andb_true_iff in H as [H1 H2]. constructor; [|auto].
+  intros Hin. apply negb_true_iff in H1. assert (existsb (beq x) r = true); [|congruence].
+  apply existsb_exists. exists x. split; [assumption|apply beq_refl].
+Qed.
+
+Lemma uses_value {A} k (cv : conv A) : uses (value k cv) [k].
+Proof. apply u_get. intros [v|]; apply u_ret. Qed.
+Lemma uses_optional {A} k (cv : conv A) : uses (optional_value k cv) [k].
+Proof. apply u_get. intros [v|]; apply u_ret. Qed.
+Lemma uses_get_raw k : uses (get_raw k) [k].
+Proof. apply u_get. intros o; apply u_ret. Qed.
+Lemma uses_song_identifier pk ik : uses (song_identifier pk ik) [pk; ik].
+Proof.
+  unfold song_identifier. apply (uses_bind _ _ [pk] [ik]); [apply uses_optional|].
+  intros [p|]; [|apply u_ret]. rewrite <- (app_nil_r [ik]). apply uses_bind; [apply uses_value|]. intros; apply u_ret.
+Qed.
+Lemma uses_p_single : uses p_single [b "single"].
+Proof. apply u_get. intros [v|]; apply u_ret. Qed.
+Lemma uses_p_duration : uses p_duration [b "duration"; b "Time"].
+Proof.
+  apply u_get. intros [v|]; [apply u_ret|]. apply u_get. intros [t|]; [|apply u_ret].
+  destruct (split_once 58 t) as [[x y]|]; apply u_ret.
+Qed.
+
+Definition status_keys : list bytes :=
+  [b "single"] ++ [b "duration"; b "Time"] ++ [b "volume"] ++ [b "state"] ++ [b "repeat"] ++ [b "random"] ++ [b "consume"] ++
+  [b "playlistlength"] ++ [b "playlist"] ++ [b "song"; b "songid"] ++ [b "nextsong"; b "nextsongid"] ++ [b "elapsed"] ++
+  [b "bitrate"] ++ [b "xfade"] ++ [b "updating_db"] ++ [b "error"] ++ [b "partition"] ++ [].
+
+Lemma uses_status : uses status_prog status_keys.
+Proof.
+  unfold status_prog, status_keys.
+  repeat (apply uses_bind;
+          [ first [apply uses_p_single | apply uses_p_duration | apply uses_value | apply uses_optional
+                  | apply uses_song_identifier | apply uses_get_raw] | intros ? ]).
+  apply u_ret.
+Qed.
+
+(* the tie to the source: the keys of the model are the literals of Status::from_frame, in order *)
+Lemma status_keys_are_source : status_keys = status_fields_read.
+Proof. vm_compute. reflexivity. Qed.
+
+Lemma status_keys_nodup : NoDup status_fields_read.
+Proof. apply nodupb_sound. vm_compute. reflexivity. Qed.
+
+Theorem status_is_lookup fs : exec status_prog fs = runL status_prog (s_find fs).
+Proof.
+  apply (exec_lookup _ status_fields_read).
+  - rewrite <- status_keys_are_source. apply uses_status.
+  - apply status_keys_nodup.
+Qed.
+
+Definition stats_keys : list bytes :=
+  [b "artists"] ++ [b "albums"] ++ [b "songs"] ++ [b "uptime"] ++ [b "playtime"] ++ [b "db_playtime"] ++ [b "db_update"] ++ [].
+
+Lemma uses_stats : uses stats_prog stats_keys.
+Proof.
+  unfold stats_prog, stats_keys. repeat (apply uses_bind; [apply uses_value | intros ?]). apply u_ret.
+Qed.
+
+Theorem stats_is_lookup fs : exec stats_prog fs = runL stats_prog (s_find fs).
+Proof. apply (exec_lookup _ stats_keys); [apply uses_stats|]. apply nodupb_sound. vm_compute. reflexivity. Qed.
+
+Theorem count_is_lookup fs : exec count_prog fs = runL count_prog (s_find fs).
+Proof.
+  apply (exec_lookup _ ([b "songs"] ++ [b "playtime"] ++ [])).
+  - unfold count_prog. repeat (apply uses_bind; [apply uses_value | intros ?]). apply u_ret.
+  - apply nodupb_sound. vm_compute. reflexivity.
+Qed.
+
+Theorem value_is_lookup {A} k (cv : conv A) fs : exec (value k cv) fs = runL (value k cv) (s_find fs).
+Proof. apply (exec_lookup _ [k]); [apply uses_value|]. repeat constructor. intros []. Qed.
+
+Theorem albumart_is_lookup fs : exec albumart_prog fs = runL albumart_prog (s_find fs).
+Proof.
+  apply (exec_lookup _ ([b "size"] ++ [b "type"] ++ [])).
+  - unfold albumart_prog. apply uses_bind; [apply uses_value|intros ?]. apply uses_bind; [apply uses_get_raw|intros ?]. apply u_ret.
+  - apply nodupb_sound. vm_compute. reflexivity.
+Qed.
+
+(* lookups are invariant under permutation when keys are pairwise distinct *)
+Lemma s_find_in l k v : s_find l k = Some v -> In (k, v) l.
+Proof.
+  induction l as [|[k' v'] r IH]; simpl; [discriminate|]. destruct (beq k' k) eqn:E.
+  - intros H; inversion H; subst. apply beq_eq in E. subst. left; reflexivity.
+  - intros H. right. auto.
+Qed.
+
+Lemma s_find_nodup l k v : NoDup (map fst l) -> In (k, v) l -> s_find l k = Some v.
+Proof.
+  induction l as [|[k' v'] r IH]; simpl; intros ND H; [contradiction|]. inversion ND; subst.
+  destruct H as [H|H].
+  - inversion H; subst. rewrite beq_refl. reflexivity.
+  - destruct (beq k' k) eqn:E; [|auto]. apply beq_eq in E. subst. exfalso. apply H2.
+    apply in_map_iff. exists (k, v). auto.
+Qed.
+
+Lemma s_find_none l k : s_find l k = None <-> ~ In k (map fst l).
+Proof.
+  induction l as [|[k' v'] r IH]; simpl; [tauto|]. destruct (beq k' k) eqn:E.
+  - apply beq_eq in E. subst. split; [discriminate|]. intros H. exfalso. apply H. left; reflexivity.
+  - rewrite IH. split; intros H; [|tauto]. intros [H1|H1]; [|tauto]. subst. rewrite beq_refl in E. discriminate.
+Qed.
+
+Lemma s_find_perm l l' k : NoDup (map fst l) -> Permutation l l' -> s_find l' k = s_find l k.
+Proof.
+  intros ND P. assert (ND' : NoDup (map fst l')) by (eapply Permutation_NoDup; [apply Permutation_map; exact P|exact ND]).
+  destruct (s_find l k) as [v|] eqn:E.
+  - apply s_find_nodup; [exact ND'|]. eapply Permutation_in; [exact P|]. apply s_find_in. exact E.
+  - apply s_find_none. apply s_find_none in E. intros H. apply E.
+    eapply Permutation_in; [apply Permutation_sym; apply Permutation_map; exact P|exact H].
+Qed.
+
+(* ====================================================================================== *)
+(* C. totality (C12): no reply makes any conversion panic                                  *)
+(* ====================================================================================== *)
+
+Inductive np {A} : prog A -> Prop :=
+  | np_ret r : r <> TPanic -> np (Ret r)
+  | np_get k c : (forall o, np (c o)) -> np (Get k c).
+
+Lemma np_run {A} (p : prog A) : np p -> forall fs, fst (run p fs) <> TPanic.
+Proof.
+  induction 1 as [r H|k c H IH]; intros fs; simpl; [exact H|]. destruct (s_get fs k) as [o fs']. apply IH.
+Qed.
+
+Lemma np_bind {A B} (p : prog A) (f : A -> prog B) : np p -> (forall a, np (f a)) -> np (bind p f).
+Proof.
+  induction 1 as [r H|k c H IH]; intros Hf; simpl.
+  - destruct r; [apply Hf|constructor; discriminate|congruence].
+  - constructor. intros o. apply IH. exact Hf.
+Qed.
+
+Definition conv_np {A} (cv : conv A) : Prop := forall v f, cv v f <> TPanic.
+
+Lemma tmap_np {A B} (g : A -> B) r : r <> TPanic -> tmap g r <> TPanic.
+Proof. destruct r; simpl; congruence. Qed.
+
+Lemma np_value {A} k (cv : conv A) : conv_np cv -> np (value k cv).
+Proof. intros H. constructor. intros [v|]; constructor; [apply H|discriminate]. Qed.
+Lemma np_optional {A} k (cv : conv A) : conv_np cv -> np (optional_value k cv).
+Proof. intros H. constructor. intros [v|]; constructor; [apply tmap_np; apply H|discriminate]. Qed.
+Lemma np_get_raw k : np (get_raw k).
+Proof. constructor. intros o. constructor. discriminate. Qed.
+
+Lemma from_uint_np bits : conv_np (from_uint bits).
+Proof. intros v f. unfold from_uint. destruct (parse_uint bits v); discriminate. Qed.
+Lemma from_enum_np tbl : conv_np (from_enum tbl).
+Proof. intros v f. unfold from_enum. destruct (lookup_spelling tbl v); discriminate. Qed.
+Lemma from_bool_np : conv_np from_bool.
+Proof. intros v f. unfold from_bool. apply tmap_np. apply from_enum_np. Qed.
+(* the repaired parse_duration: try_from_secs_f64 has no panicking input; whatever std's float
+   parser decides, the outcome is a value or an error *)
+Lemma parse_duration_np : conv_np parse_duration.
+Proof. intros v f. unfold parse_duration. destruct (parse_f64 v); [destruct (classify f0)|]; discriminate. Qed.
+Lemma timestamp_np v f : timestamp_from_value v f <> TPanic.
+Proof. unfold timestamp_from_value. destruct (canonical_timestamp v); [discriminate|]. destruct (obviously_not_timestamp v); discriminate. Qed.
+
+Lemma np_song_identifier pk ik : np (song_identifier pk ik).
+Proof.
+  unfold song_identifier. apply np_bind; [apply np_optional; apply from_uint_np|].
+  intros [p|]; [|constructor; discriminate]. apply np_bind; [apply np_value; apply from_uint_np|].
+  intros; constructor; discriminate.
+Qed.
+
+Lemma np_status : np status_prog.
+Proof.
+  unfold status_prog.
+  apply np_bind.
+  { constructor. intros [v|]; constructor; [apply from_enum_np|discriminate]. }
+  intros ?. apply np_bind.
+  { constructor. intros [v|]; [constructor; apply tmap_np; apply parse_duration_np|].
+    constructor. intros [t|]; [|constructor; discriminate].
+    destruct (split_once 58 t) as [[x y]|]; constructor; [apply tmap_np; apply parse_duration_np|discriminate]. }
+  intros ?.
+  repeat (apply np_bind;
+          [ first [ apply np_song_identifier | apply np_get_raw
+                  | apply np_value; first [apply from_uint_np | apply from_enum_np | apply from_bool_np | apply parse_duration_np]
+                  | apply np_optional; first [apply from_uint_np | apply from_enum_np | apply from_bool_np | apply parse_duration_np] ]
+          | intros ? ]).
+  constructor. discriminate.
+Qed.
+
+Ltac np_auto :=
+  repeat (apply np_bind;
+          [ first [ apply np_get_raw
+                  | apply np_value; first [apply from_uint_np | apply from_enum_np | apply from_bool_np | apply parse_duration_np]
+                  | apply np_optional; first [apply from_uint_np | apply from_enum_np | apply from_bool_np | apply parse_duration_np] ]
+          | intros ? ]);
+  try (constructor; discriminate).
+
+Lemma np_stats : np stats_prog.
+Proof. unfold stats_prog. np_auto. Qed.
+Lemma np_count : np count_prog.
+Proof. unfold count_prog. np_auto. Qed.
+Lemma np_replaygain : np replaygain_prog.
+Proof. apply np_value. apply from_enum_np. Qed.
+Lemma np_update : np update_prog.
+Proof. apply np_value. apply from_uint_np. Qed.
+Lemma np_addid : np addid_prog.
+Proof. apply np_value. apply from_uint_np. Qed.
+Lemma np_albumart : np albumart_prog.
+Proof. unfold albumart_prog. np_auto. Qed.
+
+Lemma exec_np {A} (p : prog A) fs : np p -> exec p fs <> TPanic.
+Proof. intros H. apply np_run. exact H. Qed.
+
+(* build_grouped_values: the two unwraps run only after the loop condition said both are set *)
+Lemma count_grouped_np g fs : forall cur acc, count_grouped g cur acc fs <> TPanic.
+Proof.
+  induction fs as [|[k v] r IH]; intros cur acc; cbn [count_grouped].
+  - destruct cur as [[[val s] p]|]; [destruct (isnone s)|]; discriminate.
+  - destruct cur as [[[val s] p]|].
+    + destruct (beq k (b "songs")).
+      * destruct s as [n|]; [discriminate|].
+        pose proof (from_uint_np 64 v (b "songs")) as H. destruct (from_uint 64 v (b "songs")) as [n|e|]; [|discriminate|congruence].
+        destruct p as [d|]; cbn [isnone orb]; apply IH.
+      * destruct (beq k (b "playtime")); [|discriminate].
+        destruct p as [d|]; [discriminate|].
+        pose proof (parse_duration_np v (b "playtime")) as H. destruct (parse_duration v (b "playtime")) as [d|e|]; [|discriminate|congruence].
+        destruct s as [n|]; cbn [isnone orb]; apply IH.
+    + destruct (beq k g); [apply IH|discriminate].
+Qed.
+
+(* a field name the parser accepts: non-empty, bytes of the parser's key alphabet *)
+Definition parser_key (k : bytes) : Prop :=
+  k <> [] /\ Forall (fun c => c < 256 /\ parser_key_charset c = true) k.
+
+Lemma parser_key_is_tag k : parser_key k -> exists t, tag_try_from k = TagOk t.
+Proof.
+  intros [H1 H2]. apply accepts_iff. split; [exact H1|].
+  eapply Forall_impl; [|exact H2]. intros c [Hc Hp]. cbv beta. rewrite charset_is_protocol; assumption.
+Qed.
+
+(* List::from_frame: Tag::try_from(key).unwrap() cannot fail on keys the parser produced *)
+Lemma list_fields_np fs : Forall (fun f => parser_key (fst f)) fs -> list_fields fs <> TPanic.
+Proof.
+  induction 1 as [|[k v] r H _ IH]; simpl; [discriminate|].
+  destruct (parser_key_is_tag k H) as [t E]. rewrite E. apply tmap_np. exact IH.
+Qed.
+
+Lemma position_lt {A} (p : A -> bool) l n : position p l = Some n -> (n < length l)%nat.
+Proof.
+  revert n; induction l as [|x r IH]; simpl; intros n H; [discriminate|].
+  destruct (p x); [inversion H; lia|]. destruct (position p r) as [m|]; [|discriminate].
+  inversion H. specialize (IH m eq_refl). lia.
+Qed.
+
+Lemma set_nth_some {A} n (x : A) l : (n < length l)%nat -> exists l', set_nth n x l = Some l' /\ length l' = length l.
+Proof.
+  revert n; induction l as [|y r IH]; simpl; intros n H; [lia|].
+  destruct n as [|m]; [exists (x :: r); auto|]. simpl.
+  destruct (IH m ltac:(lia)) as (l' & E & L). rewrite E. exists (y :: l'). simpl. auto.
+Qed.
+
+(* GroupedListValuesIter: the index into grouping_values is always in range *)
+Lemma grouped_iter_np primary gts fs : forall gvals, length gvals = length gts -> grouped_iter primary gts gvals fs <> TPanic.
+Proof.
+  induction fs as [|[t v] r IH]; intros gvals L; simpl; [discriminate|].
+  destruct (tag_eq t primary); [apply tmap_np; auto|].
+  destruct (position (fun g => tag_eq g t) gts) as [idx|] eqn:P; [|auto].
+  apply position_lt in P. rewrite <- L in P. destruct (set_nth_some idx v gvals P) as (l' & E & L').
+  rewrite E. apply IH. congruence.
+Qed.
+
+Theorem grouped_values_total l : grouped_values l <> TPanic.
+Proof. unfold grouped_values. apply grouped_iter_np. apply map_length. Qed.
+
+Lemma playlists_np fs : forall cur acc, playlists cur acc fs <> TPanic.
+Proof.
+  induction fs as [|[k v] r IH]; intros cur acc; cbn [playlists]; [discriminate|].
+  destruct cur as [name|].
+  - destruct (beq k (b "Last-Modified")); [|discriminate].
+    pose proof (timestamp_np v (b "Last-Modified")). destruct (timestamp_from_value v (b "Last-Modified")); [apply IH|discriminate|congruence].
+  - destruct (beq k (b "playlist")); [apply IH|discriminate].
+Qed.
+
+Lemma parse_sticker_np v : parse_sticker_value v <> TPanic.
+Proof. unfold parse_sticker_value. destruct (split_once 61 v); discriminate. Qed.
+
+Lemma sticker_get_np fs : sticker_get_model fs <> TPanic.
+Proof.
+  destruct fs as [|[k v] r]; cbn [sticker_get_model]; [discriminate|]. destruct (beq k (b "sticker")); [|discriminate].
+  apply tmap_np. apply parse_sticker_np.
+Qed.
+
+Lemma sticker_list_np fs : forall m, sticker_list m fs <> TPanic.
+Proof.
+  induction fs as [|[k v] r IH]; intros m; simpl; [discriminate|].
+  pose proof (parse_sticker_np v). destruct (parse_sticker_value v) as [[n x]|e|]; [apply IH|discriminate|congruence].
+Qed.
+
+Lemma sticker_find_np fs : forall file m, sticker_find file m fs <> TPanic.
+Proof.
+  induction fs as [|[k v] r IH]; intros file m; cbn [sticker_find]; [discriminate|].
+  destruct (beq k (b "file")); [apply IH|]. destruct (beq k (b "sticker")); [|discriminate].
+  pose proof (parse_sticker_np v). destruct (parse_sticker_value v) as [[n x]|e|]; [apply IH|discriminate|congruence].
+Qed.
+
+Lemma channels_np fs : channels_model fs <> TPanic.
+Proof.
+  induction fs as [|[k v] r IH]; cbn [channels_model]; [discriminate|]. destruct (beq k (b "channel")); [apply tmap_np; exact IH|discriminate].
+Qed.
+
+Lemma messages_np : forall n fs, (length fs <= n)%nat -> messages_model fs <> TPanic.
+Proof.
+  induction n as [|n IH]; intros fs L.
+  - destruct fs; [simpl; discriminate|simpl in L; lia].
+  - destruct fs as [|[k v] r]; cbn [messages_model]; [discriminate|]. destruct (beq k (b "channel")); [|discriminate].
+    destruct r as [|[k2 v2] r2]; [discriminate|]. destruct (beq k2 (b "message")); [|discriminate].
+    apply tmap_np. apply IH. simpl in L. lia.
+Qed.
+
+Lemma tagtypes_np fs : tagtypes_model fs <> TPanic.
+Proof.
+  induction fs as [|[k v] r IH]; cbn [tagtypes_model]; [discriminate|]. destruct (beq k (b "tagtype")); [|discriminate].
+  destruct (tag_try_from v); try discriminate. apply tmap_np. exact IH.
+Qed.
+
+Definition frame_keys_ok (f : frame) : Prop := Forall (fun kv => parser_key (fst kv)) (f_fields f).
+
+Theorem response_total c f : frame_keys_ok f -> response_model c f <> TPanic.
+Proof.
+  intros K. destruct c; cbn [response_model]; try discriminate; apply tmap_np;
+    try (apply exec_np; first [apply np_status | apply np_stats | apply np_replaygain | apply np_count | apply np_addid | apply np_update]).
+  - apply count_grouped_np.
+  - unfold list_model. apply tmap_np. apply list_fields_np. exact K.
+  - apply playlists_np.
+  - apply tagtypes_np.
+  - apply sticker_get_np.
+  - apply sticker_list_np.
+  - apply sticker_find_np.
+  - eapply messages_np. apply Nat.le_refl.
+  - apply channels_np.
+  - unfold albumart_model. destruct (f_binary f); [apply tmap_np; apply exec_np; apply np_albumart|discriminate].
+  - unfold albumart_model. destruct (f_binary f); [apply tmap_np; apply exec_np; apply np_albumart|discriminate].
+Qed.
+
+Theorem consume_total v : consume_model v <> TPanic.
+Proof. destruct v; simpl; try discriminate. apply tmap_np. apply grouped_values_total. Qed.
+
+Lemma zip_responses_np cmds : forall frames, Forall frame_keys_ok frames -> zip_responses cmds frames <> TPanic.
+Proof.
+  induction cmds as [|c cr IH]; intros frames K; simpl; [discriminate|].
+  destruct frames as [|f fr]; [discriminate|]. inversion K; subst.
+  pose proof (response_total c f H1). destruct (response_model c f); [apply tmap_np; auto|discriminate|congruence].
+Qed.
+
+Lemma tuple_go_np cmds idxs : forall frames, Forall frame_keys_ok frames -> tuple_go idxs cmds frames <> TPanic.
+Proof.
+  induction idxs as [|i r IH]; intros frames K; simpl; [discriminate|].
+  destruct frames as [|f fr]; [discriminate|]. inversion K; subst.
+  destruct (nth_error cmds i) as [c|]; [|discriminate].
+  pose proof (response_total c f H1). destruct (response_model c f); [apply tmap_np; auto|discriminate|congruence].
+Qed.
+
+(* typed command lists: no hypothesis relating the number of frames to the number of commands *)
+Theorem responses_total sh cmds frames : Forall frame_keys_ok frames -> responses_model sh cmds frames <> TPanic.
+Proof.
+  intros K. destruct sh; simpl.
+  - unfold vec_responses. destruct (Nat.eqb (length cmds) (length frames)); [apply zip_responses_np; exact K|discriminate].
+  - unfold tuple_responses. destruct (find _ tuple_impls); [apply tuple_go_np; exact K|discriminate].
+Qed.
+
+(* ---------- the hypothesis of C12 is what the protocol parser guarantees ---------- *)
+From MPD Require Import ParserModel.
+
+Lemma span_len_prefix p i n : span_len p i = Some n -> Forall (fun c => p c = true) (firstn n i).
+Proof.
+  revert n; induction i as [|c r IH]; simpl; intros n H; [discriminate|].
+  destruct (p c) eqn:E; [|inversion H; constructor].
+  destruct (span_len p r) as [m|]; [|discriminate]. inversion H; subst. simpl. constructor; auto.
+Qed.
+
+Lemma key_charset_is_byte c : parser_key_charset c = true -> c < 256.
+Proof. unfold parser_key_charset, is_alpha, is_upper, is_lower, in_range. lia. Qed.
+
+Ltac dm H := repeat match type of H with
+                    | context [match ?x with _ => _ end] =>
+                      lazymatch x with
+                      | context [match _ with _ => _ end] => fail
+                      | _ => destruct x eqn:?; try discriminate
+                      end
+                    end.
+
+Lemma key_value_key i n k v : p_key_value i = ROk n (CField k v) -> parser_key k.
+Proof.
+  unfold p_key_value, p_bind, p_map_res, p_take_while1, p_ret, utf8. intros H.
+  destruct (span_len parser_key_charset i) as [[|m]|] eqn:E; try discriminate.
+  destruct (utf8_valid (firstn (S m) i)); try discriminate.
+  dm H. inversion H; subst. split.
+  - destruct i; [simpl in E; discriminate|simpl; discriminate].
+  - apply span_len_prefix in E.
+    eapply Forall_impl; [|exact E]. intros c Hc. split; [apply key_charset_is_byte|]; exact Hc.
+Qed.
+
+Theorem parsed_field_has_parser_key i n k v : parse_component i = ROk n (CField k v) -> parser_key k.
+Proof.
+  unfold parse_component, p_alt. intros H.
+  destruct (p_map (p_tag (b "OK" ++ [LF])) (fun _ => EndOfResponse) i) eqn:E1.
+  { unfold p_map, p_map_res in E1. dm E1. congruence. }
+  all: try discriminate.
+  destruct (p_map (p_tag (b "list_OK" ++ [LF])) (fun _ => EndOfFrame) i) eqn:E2.
+  { unfold p_map, p_map_res in E2. dm E2. congruence. }
+  all: try discriminate.
+  destruct (p_error i) eqn:E3.
+  { unfold p_error, p_bind, p_ret in E3. dm E3. congruence. }
+  all: try discriminate.
+  destruct (p_binary i) eqn:E4.
+  { unfold p_binary, p_cut, p_bind, p_ret in E4. dm E4. congruence. }
+  all: try discriminate.
+  eapply key_value_key. exact H.
+Qed.
